@@ -433,6 +433,9 @@ func (e *Engine) execInstr(f *frame, b *ssa.BasicBlock, in ssa.Instruction, st *
 			panic(reject("interior pointer stored to memory"))
 		}
 		e.frameCheck(f, st, p, pos)
+		if !privateCell(x.Addr) {
+			e.ownStore(st, p.Terms[0], Val{Typ: x.Val.Type(), Terms: v.Terms}, pos, "store")
+		}
 		e.store(st, p, v)
 	case *ssa.TypeAssert:
 		f.vals[x] = e.typeAssert(f, st, x, pos)
@@ -811,4 +814,43 @@ func (f *frame) setIfaceSig(sig *types.Signature) {
 	for i := 0; i < sig.Params().Len(); i++ {
 		f.pnames = append(f.pnames, sig.Params().At(i).Name())
 	}
+}
+
+// privateCell: addr is (a field of) a local variable cell whose address is only ever used to load from and store
+// to it, so the cell cannot become part of any data structure.
+func privateCell(addr ssa.Value) bool {
+	for {
+		switch a := addr.(type) {
+		case *ssa.FieldAddr:
+			addr = a.X
+			continue
+		case *ssa.Alloc:
+			return onlyLoadStore(a, 0)
+		}
+		return false
+	}
+}
+
+func onlyLoadStore(v ssa.Value, depth int) bool {
+	if depth > 4 || v.Referrers() == nil {
+		return false
+	}
+	for _, r := range *v.Referrers() {
+		switch x := r.(type) {
+		case *ssa.UnOp:
+			// load
+		case *ssa.Store:
+			if x.Val == v {
+				return false // the address itself is stored somewhere
+			}
+		case *ssa.FieldAddr:
+			if !onlyLoadStore(x, depth+1) {
+				return false
+			}
+		case *ssa.DebugRef:
+		default:
+			return false
+		}
+	}
+	return true
 }
